@@ -192,6 +192,84 @@ func runC19(c *core.Ctx) {
 	c.Rule("C19.freshslot", freshSlotText, 6)
 	checkFreshSlot(c)
 
+	c.Rule("C19.memberthenfinish", "a union's member is in place before anybody is told the union is complete: in node/bindnode, a call of the package's function that sets a union's member (it resets the union value and stores the member pointer into one of its fields) is never reachable, within one activation, after a step that can run the enclosing finish hook - a read of a finish-hook field, or a delegating Assign* call on an assembler (a copy of an assembler carries the original's hook) - the hook of a typed map copies the union by value, so a member set afterwards is lost", 2)
+	{
+		// the member setter by role: a package-level function of bindnode with two reflect.Value parameters and an int
+		// that calls reflect.Value.Set on a Field(i) of the first
+		var setters []*ssa.Function
+		for _, fn := range p.ModFns {
+			pk := core.FuncPkg(fn)
+			if pk == nil || core.RelPkg(pk.Path()) != "node/bindnode" || len(fn.Blocks) == 0 || fn.Signature.Recv() != nil || fn.Parent() != nil || fn.Signature.Results().Len() != 0 {
+				continue
+			}
+			nrv := 0
+			for _, prm := range fn.Params {
+				if nt := namedOfType(prm.Type()); nt != nil && nt.Obj().Pkg() != nil && nt.Obj().Pkg().Path() == "reflect" && nt.Obj().Name() == "Value" {
+					nrv++
+				}
+			}
+			setsField := false
+			for _, ci := range core.Calls(fn) {
+				if core.IsMethod(ci, "reflect", "Value", "Set") {
+					if rc, ok := core.Strip(core.Receiver(ci)).(*ssa.Call); ok && core.IsMethod(rc, "reflect", "Value", "Field") {
+						setsField = true
+					}
+				}
+			}
+			if nrv == 2 && setsField {
+				setters = append(setters, fn)
+			}
+		}
+		nsite := 0
+		for _, fn := range p.ModFns {
+			pk := core.FuncPkg(fn)
+			if pk == nil || core.RelPkg(pk.Path()) != "node/bindnode" || len(fn.Blocks) == 0 || fn.Synthetic != "" {
+				continue
+			}
+			for _, ci := range core.Calls(fn) {
+				cal := ci.Common().StaticCallee()
+				isSetter := false
+				for _, g := range setters {
+					isSetter = isSetter || cal == g
+				}
+				if !isSetter {
+					continue
+				}
+				nsite++
+				canFinish := func(in ssa.Instruction) bool {
+					switch x := in.(type) {
+					case *ssa.UnOp:
+						if fa, ok := x.X.(*ssa.FieldAddr); ok && x.Op == token.MUL && isFinishHookField(fa) {
+							return true
+						}
+					case ssa.CallInstruction:
+						if g := x.Common().StaticCallee(); g != nil && g.Signature.Recv() != nil && strings.HasPrefix(g.Name(), "Assign") {
+							return true
+						}
+						if x.Common().IsInvoke() && strings.HasPrefix(x.Common().Method.Name(), "Assign") {
+							return true
+						}
+					}
+					return false
+				}
+				bad := false
+				var wp []string
+				core.Instrs(fn, func(in ssa.Instruction) {
+					if !canFinish(in) || bad {
+						return
+					}
+					if path, reached := core.ReachLocal(fn, in, func(x ssa.Instruction) bool { return x == ci.(ssa.Instruction) }, nil, nil); reached {
+						bad, wp = true, p.Witness(path)
+					}
+				})
+				c.Check(!bad, fmt.Sprintf("%s#member-set%d-before-finish", core.FuncKey(fn), nsite), p.Pos(ci.Pos()), "the member is set before anything that can run the enclosing finish hook", "the union's member is set after a step that can already have run the enclosing finish hook (a delegating Assign* on an assembler that carries it, or the hook itself): an enclosing map that copies the union by value in its hook stores the union without a member", wp...)
+			}
+		}
+		if len(setters) == 0 {
+			c.Undecided("node/bindnode#union-member-setter", "-", "the function that sets a union's member was not found")
+		}
+	}
+
 	c.Rule("C19.infermemo", "schema inference infers each Go type once per call: in every recursive function of bindnode that takes a reflect.Type and accumulates a freshly spawned composite type into a TypeSystem, the Accumulate call is only reachable past the miss edge of a comma-ok lookup in a map keyed by that reflect.Type, and every path from the Accumulate to a return records the type in that map - so a Go type mentioned twice (two fields of one struct type, two []string fields) is not accumulated twice (TypeSystem.Accumulate panics on a duplicate name), and two different Go types are never merged by name", 2)
 	checkInferMemo(c)
 
